@@ -236,6 +236,17 @@ func genBigFloat(r *hx.RNG, tier string) (*big.Float, string) {
 		}
 		return x, "zero"
 	}
+	if r.Chance(8) {
+		// a short decimal integer c x 10^n held exactly: its binary mantissa carries the factor 5^n, its decimal expansion
+		// is short (any precision >= the digits of c holds it) although the power of two that scales it is long
+		n := r.Range(20, 700)
+		v := new(big.Int).Mul(hx.CoefOf(r.Digits(r.Range(1, 12))), oracle.Pow10(int64(n)))
+		x.SetPrec(uint(v.BitLen() + r.Intn(3)*r.Range(0, 200))).SetInt(v)
+		if r.Bool() {
+			x.Neg(x)
+		}
+		return x, "finite"
+	}
 	m := new(big.Int).SetUint64(r.U64())
 	if r.Chance(25) {
 		// far fewer significant bits than the precision provides (3 held at 128 bits): Prec() and MinPrec() differ widely
